@@ -92,6 +92,20 @@ def min_amp(buf):
     return m
 
 
+def matches(got, want, repaired):
+    """the returned frames are the wanted ones, in order; in between, the repaired form of a smeared squitter may appear (a receiver may
+    drop such a frame or mend it).  A clean frame and a smeared one may carry the same bits."""
+    i = 0
+    for g in got:
+        if i < len(want) and g == want[i]:
+            i += 1
+        elif g in repaired:
+            continue
+        else:
+            return False
+    return i == len(want)
+
+
 def admissible(msg):
     df = int(msg[:2], 16) >> 3
     if df == 17 and len(msg) == 28:
@@ -179,7 +193,7 @@ def chk_case(case, note):
                 return "returned %r: not an upper-case hex frame of 14/28 digits" % (g,)
             if len(g) == 28 and int(g[:2], 16) >> 3 == 17 and crc24.remainder(int(g, 16), 112) != 0:
                 return "returned DF17 frame %s whose checksum is non-zero" % g
-        if [g for g in got if g not in repaired] != want:
+        if not matches(got, want, repaired):
             return "buffer %d (noise %s up to %.4f, amplitudes %s): returned %r, transmitted admissible frames %r" % (
                 bi, buf["shape"], nlevel, [round(it["amp"], 3) for it in buf["items"]], got, want)
         pos = buf["lead"]
@@ -242,7 +256,7 @@ def chk_iq(case, note):
     for g in rd.got:
         if len(g) == 28 and int(g[:2], 16) >> 3 == 17 and crc24.remainder(int(g, 16), 112) != 0:
             return "IQ samples through _read_callback: handle_messages received DF17 frame %s whose checksum is non-zero" % g
-    if [g for g in rd.got if g not in repaired] != want:
+    if not matches(rd.got, want, repaired):
         return "IQ samples through _read_callback: handle_messages received %r, transmitted admissible frames %r (noise %s up to %.4f)" % (rd.got, want, case["shape"], nlevel)
     note.cls("iq-chunks%d" % case["chunks"])
     note.nt(True)
@@ -321,7 +335,7 @@ def chk_long(case, note):
     for g in got:
         if len(g) == 28 and int(g[:2], 16) >> 3 == 17 and crc24.remainder(int(g, 16), 112) != 0:
             return "%s buffer of %d samples: returned DF17 frame %s whose checksum is non-zero" % (case["kind"], len(samples), g)
-    if [g for g in got if g not in repaired] != want:
+    if not matches(got, want, repaired):
         miss = [m for m in want if m not in got]
         return "%s buffer of %d samples (noise %s up to %.4f): %d frames returned, %d transmitted admissible; missing %r, unexpected %r" % (
             case["kind"], len(samples), case["shape"], nlevel, len(got), len(want), miss[:3], [m for m in got if m not in want][:3])
